@@ -387,6 +387,7 @@ def valPow (a : Val) (n : Nat) : Except Err Val :=
 inductive SymExpr where
   | var (k : VT) (l : Label) (bias : Rat) (lb ub : Option Rat)   -- Binary / Spin / Integer / Real
   | const (q : Rat)
+  | empty (k : VT) (off : Rat)    -- a variable-free BQM: `BQM(vartype)` / `BQM.empty(vartype)` with an offset
   | add (a b : SymExpr)
   | sub (a b : SymExpr)
   | mul (a b : SymExpr)
@@ -436,6 +437,7 @@ def qsumVals : List Val → Except Err Val
 def build : SymExpr → Except Err Val
   | .var k l bias lb ub => (mkVar k l bias lb ub).map .mdl
   | .const q => .ok (.num q)
+  | .empty k off => if k = .spin ∨ k = .binary then .ok (.mdl ⟨false, k, [], [], off⟩) else .error .value
   | .add a b => do let x ← build a; let y ← build b; valAdd x y
   | .sub a b => do let x ← build a; let y ← build b; valSub x y
   | .mul a b => do let x ← build a; let y ← build b; valMul x y
@@ -467,6 +469,7 @@ def build : SymExpr → Except Err Val
 def SymExpr.eval (x : Label → Rat) : SymExpr → Rat
   | .var _ l bias _ _ => bias * x l
   | .const q => q
+  | .empty _ off => off
   | .add a b => a.eval x + b.eval x
   | .sub a b => a.eval x - b.eval x
   | .mul a b => a.eval x * b.eval x
